@@ -58,7 +58,7 @@ def build(M: int, lens: tuple, opening: bool, pickup: int, final: bool, kern_spi
         cells = []
         for c in range(kern_spines):
             if i == 0 and first_kind:
-                cells.append(FIRST_KINDS[first_kind] if c == 0 else '2r' + ';' * c)   # every spine starts with a non-note cell kind
+                cells.append(FIRST_KINDS[first_kind] if c == 0 else (('2E 2G', '2F 2A', '2D 2B')[c % 3] if first_kind == 1 else '2r' + ';' * c))   # every spine starts with that cell kind
                 continue
             cells.append(NOTES[(i * kern_spines + c) % len(NOTES)] if (i * kern_spines + c) < len(NOTES)
                          else '%d%s' % (16, 'cdefgab'[(i + c) % 7] * 3))
